@@ -16,11 +16,15 @@ OBLIGATIONS = [
          functions=["asmpars.c:ChkTmp2", "AddTmpSymLog", "InitTmpSymbols"],
          bounds="all sequences of 6 definitions/references from {-, +, / definitions; -, --, ---, +, ++, +++ references}",
          assumes=["the formatter producing the internal name is observed (prefix and number), not executed"]),
+    dict(_m.BASE, name="pushv_popv", src="../C01/symtab.c", defs=["K_PUSHV", "NEV=5", "STRINGSIZE=16"], unwind=12, tier="experimental",
+         functions=["asmpars.c:PushSymbol", "PopSymbol", "FindNode", "LookupSymbol", "EnterIntSymbolWithFlags"],
+         bounds="all sequences of 5 statements from {PUSHV stack,sym; POPV stack,sym; SET sym := any 64-bit value} over two named stacks and two variables",
+         assumes=_m.BASE["assumes"] + ["stack names one letter (A, B); the default stack name is not used"]),
     dict(name="ppsyms", src="ppsyms.c", include=["asmallg.c"], units=["asmdef.c", "strcomp.c", "dynstr.c"], stubs=["diag.c", "fmt_off.c"], defs=["STRINGSIZE=16"],
          unwind=12, functions=["asmallg.c:CodePPSyms", "asmallg.c:CodePPSyms_SearchSym", "strcomp.c:StrCompSplitRef"], timeout=900,
          bounds="PUBLIC/GLOBAL/FORWARD list of two entries, each with or without a :section qualifier",
          assumes=["IdentifySection cut to a map from qualifier text to a handle", "ExpandStrSymbol = copy; concrete one-letter names"]),
 ]
 META = dict(outside=["$$ and .name temporary symbols (ChkTmp1/ChkTmp3)", "IdentifySection parsing of PARENTn/names", "composed .name symbols",
-                     "local handles, PUSHV/POPV, case folding beyond one letter, trees.c"],
+                     "local handles, PUSHV/POPV (kernel pushv_popv written, experimental: no verdict within 600 s at 5 events), case folding beyond one letter, trees.c"],
             assumptions=["malloc never fails"])
